@@ -14,7 +14,7 @@ RULE = (
     "Non-trivial = at least one notification was stale/duplicated/reordered or a terminator occurred; distinct = distinct tuples of (path, consumer, value-order pattern, gap classes, terminator, position)"
 )
 ASSUMPTIONS = ["one-way latency 1 ms; datagrams with gap 0 are delivered back-to-back in one event-loop iteration", "OBSERVATION_RESET_TIME is 128 s (default tuning)"]
-REQUIRED_MONITORS = {"late_consumer": 100, "freshness_order": 800, "nothing_fresher_left": 300, "terminal_signal": 800, "after_end_wire": 200, "time_clause_exercised": 20, "clock_consulted": 1}
+REQUIRED_MONITORS = {"failure_before_first_response": 4, "late_consumer": 100, "freshness_order": 800, "nothing_fresher_left": 300, "terminal_signal": 800, "after_end_wire": 200, "time_clause_exercised": 20, "clock_consulted": 1}
 EXHAUSTIVE = {"permutations": "all orders of each base value set (length <= 5) for every consumer/path"}
 
 VALUE_SETS = [
@@ -76,6 +76,17 @@ def window_script(r):
     return {"path": r.choice(["raw", "default"]), "consumer": r.choice(["cb", "iter"]), "first": (base - 1) % 2**24, "notifs": notifs, "term": "none", "term_pos": 0, "term_gap": 1.0, "trail": 0, "class": "window"}
 
 
+def special_scripts():
+    """transport failure instead of a first response; terminating response back to back with the first response"""
+    out = []
+    for path in ("raw", "default"):
+        for consumer in ("cb", "iter", "iter-poll"):
+            out.append({"path": path, "consumer": consumer, "first": 0, "no_first": True, "notifs": [], "term": "none", "term_pos": 0, "term_gap": 0.0, "trail": 0, "class": "no-first"})
+            for ef in ("2.05", "4.04"):
+                out.append({"path": path, "consumer": consumer, "first": 0, "early_final": ef, "notifs": [], "term": "final-" + ef, "term_pos": 0, "term_gap": 0.0, "trail": 2, "class": "early-final"})
+    return out
+
+
 def random_script(r):
     n = r.randrange(1, 9)
     base = r.choice([0, 1000, 2**23 - 3, 2**24 - 4])
@@ -84,7 +95,8 @@ def random_script(r):
         vals = [r.choice([0, 1, 2**23 - 1, 2**23, 2**23 + 1, 2**24 - 1]) for _ in range(n)]
     return {
         "path": r.choice(["raw", "default"]),
-        "consumer": r.choice(["cb", "iter"]),
+        "consumer": r.choice(["cb", "iter", "iter-poll"]),
+        "poll": r.choice([0.3, 0.7, 5.0, 200.0]),
         "first": r.choice([0, 0, 0, 7, None]),
         "notifs": [{"v": v, "gap": r.choice(GAPS), "type": r.choice(["NON", "CON"])} for v in vals],
         "term": r.choice(["none", "final-2.05", "final-4.04", "icmp"]),
@@ -125,9 +137,20 @@ def run_script(sc, seed, rep, case):
             if m is None or not rc.is_request(m.code) or state["token"] is not None:
                 return
             state["token"] = m.token
+            if sc.get("no_first"):
+                # the registration request bounces: a transport error instead of any response
+                net.inject_error(C, P, 111, delay=0.0)
+                state["t_total"] = 1.0
+                return
             opts = ((6, rc.uint_bytes(sc["first"])),) if sc["first"] is not None else ()
             sends.append({"id": "first", "v": sc["first"], "kind": "first", "t": loop.time() + 0.001})
             peer.send(src, rc.Msg(rc.ACK, rc.c(2, 5), m.mid, m.token, opts, b"first"))
+            if sc.get("early_final") and sc["first"] is not None:
+                # the terminating response follows the first response back to back
+                code = rc.c(2, 5) if sc["early_final"] == "2.05" else rc.c(4, 4)
+                send_notif(peer, "final", None, "NON", code, "final")
+                state["t_total"] = 1.0
+                return
             # schedule the script
             t = 0.5
             items = [("n%d" % i, n) for i, n in enumerate(sc["notifs"])]
@@ -159,6 +182,35 @@ def run_script(sc, seed, rep, case):
             rq.observation.register_callback(lambda m: delivered.append((loop.time(), bytes(m.payload).decode(), m.opt.observe)))
             rq.observation.register_errback(lambda e: terminal.append((loop.time(), type(e).__name__, e)))
             consumer_task = None
+        elif sc["consumer"] == "iter-poll":
+
+            async def consume():
+                # an application that polls the iterator with a time-out of its own
+                it = rq.observation.__aiter__()
+                spurious = 0
+                while True:
+                    try:
+                        m = await asyncio.wait_for(it.__anext__(), sc.get("poll", 0.7))
+                    except asyncio.TimeoutError:
+                        continue
+                    except StopAsyncIteration:
+                        terminal.append((loop.time(), "StopAsyncIteration", None))
+                        return
+                    except asyncio.CancelledError:
+                        if asyncio.current_task().cancelling():
+                            raise
+                        spurious += 1  # nobody cancelled this task
+                        if spurious > 50:
+                            terminal.append((loop.time(), "spurious-CancelledError", None))
+                            return
+                        await asyncio.sleep(0.01)
+                        continue
+                    except Exception as e:
+                        terminal.append((loop.time(), type(e).__name__, e))
+                        return
+                    delivered.append((loop.time(), bytes(m.payload).decode(), m.opt.observe))
+
+            consumer_task = asyncio.ensure_future(consume())
         else:
 
             async def consume():
@@ -177,7 +229,7 @@ def run_script(sc, seed, rep, case):
             resp = await asyncio.wait_for(asyncio.shield(rq.response), 30)
             first = ("response", bytes(resp.payload).decode(), resp.opt.observe)
         except Exception as e:
-            first = ("exception", type(e).__name__, None)
+            first = ("exception", type(e).__name__, e)
         late_delivered, late_terminal, late_task, late_attached = [], [], [None], []
 
         def attach_late():
@@ -266,6 +318,23 @@ def judge(sc, box, res, rep, case):
                 end_idx, end_kind = i, "icmp"
                 break
     live = arrivals if end_idx is None else arrivals[: end_idx + 1]
+    if sc.get("no_first"):
+        # a transport failure before any response: the request fails with a network error, and so does the
+        # observation (exactly once); nothing is delivered
+        from aiocoap import error
+
+        rep.monitor("terminal_signal")
+        rep.monitor("failure_before_first_response")
+        term = box["terminal"]
+        if box["first"][0] != "exception" or not isinstance(box["first"][2], error.NetworkError):
+            rep.violation("no-first/request-outcome", "the registration request bounced, but the request did not fail with a network error", wit(), case)
+        elif box["delivered"]:
+            rep.violation("no-first/delivery", "something was delivered although no response ever arrived", wit(), case)
+        elif len(term) != 1:
+            rep.violation("no-first/terminal-signals-%d/%s-%s" % (len(term), sc["path"], sc["consumer"]), "the observation's end was signalled %d times instead of exactly once" % len(term), wit(), case)
+        elif not isinstance(term[0][2], error.NetworkError):
+            rep.violation("no-first/wrong-terminal-kind/%s-%s" % (sc["path"], sc["consumer"]), "transport failure before the first response: the observation ended with %s instead of a network error" % term[0][1], wit(), case)
+        return
     # ---- first response ----
     if box["first"][0] != "response" or box["first"][1] != "first":
         rep.violation("first-response-not-delivered", "the request's response future did not yield the first response", wit(), case)
@@ -452,6 +521,13 @@ def run_shard(shard, rep, only=None):
         run_script(sc, shard["seed"] * 65537 + n, rep, case)
         if n <= 1 and shard["index"] == 0:
             rep.sample({"class": "permutation-script", "script": sc})
+    for j, sc in enumerate(special_scripts()):
+        if j % shard["of"] != shard["index"] % 16:
+            continue
+        case = ["special", j]
+        if only is not None and only != case:
+            continue
+        run_script(dict(sc), shard["seed"] * 31 + j, rep, case)
     for k in range(shard["extra"]):
         sc = window_script(r) if k % 3 == 0 else random_script(r)
         case = ["rand", k]
